@@ -906,6 +906,28 @@ func (env *cenv) evalCall(t ECall) cval {
 			env.errf("payload of non-interface")
 		}
 		return cval{v: Val{v.v[1]}, T: types.Typ[types.Uintptr]}
+	case "nparts", "part":
+		// decimal text view (text.go): nparts(s, 'c'), part(s, 'c', k)
+		v := env.eval(t.Args[0])
+		if !isString(v.T) {
+			env.errf("%s of non-string", name)
+		}
+		cht := env.toInt64(env.eval(t.Args[1]))
+		if !cht.IsConst() {
+			env.errf("%s: separator must be a constant", name)
+		}
+		ch := byte(cht.C)
+		if name == "nparts" {
+			return cval{v: Val{e.txtNParts(v.v, ch)}, T: types.Typ[types.Int]}
+		}
+		k := env.toInt64(env.eval(t.Args[2]))
+		return cval{v: e.txtPart(v.v, ch, k), T: types.Typ[types.String]}
+	case "atoiok":
+		v := env.eval(t.Args[0])
+		return cval{v: Val{e.txtAtoiOk(v.v)}, T: tBool}
+	case "atoiv":
+		v := env.eval(t.Args[0])
+		return cval{v: Val{e.txtAtoiV(v.v)}, T: types.Typ[types.Int]}
 	case "f32bits":
 		v := env.eval(t.Args[0])
 		return cval{v: Val{e.fpToBits(v.v[0])}, T: types.Typ[types.Uint32]}
